@@ -40,6 +40,7 @@ type fullCfg struct {
 	Faults     bool   `json:"backend_faults"`
 	Partial    bool   `json:"partial_failures"`
 	Wait       bool   `json:"wait_for_result"`
+	NoQueue    bool   `json:"no_queue"`
 }
 
 type fullReq struct {
@@ -80,6 +81,12 @@ func fullConfig(tp *simkit.Tape, prop string) fullCfg {
 		c.Signal = profilesAdapter.name
 	}
 	c.Persistent = tp.Chance(1, 3)
+	if prop == "C05" {
+		// C05's supplement: only the clause "a retry wait interrupted by shutdown ends with a shutdown-classified error
+		// so that a persistent queue keeps the request", with a request that may be split into parts that retry
+		// independently (C05's own harness follows one attempt chain)
+		c.Persistent = true
+	}
 	if c.Persistent {
 		// sending_queue::batch needs an items/bytes sizer and the persistent queue a requests sizer, but the legacy
 		// WithBatcher option combines with a persistent queue
@@ -99,7 +106,7 @@ func fullConfig(tp *simkit.Tape, prop string) fullCfg {
 		c.Cap = int64(tp.Range(6, 40))
 	}
 	c.Consumers = tp.Range(1, 3)
-	c.Retry = tp.Chance(1, 2)
+	c.Retry = tp.Chance(1, 2) || prop == "C05"
 	c.TimeoutS = []int{0, 5}[tp.Draw(2)]
 	if c.Batch != "none" {
 		c.Max = int64(tp.Draw(9))
@@ -111,9 +118,14 @@ func fullConfig(tp *simkit.Tape, prop string) fullCfg {
 		c.FlushS = tp.Range(1, 8)
 	}
 	c.Steps = tp.Range(6, 40)
-	c.Faults = tp.Chance(2, 3)
+	c.Faults = tp.Chance(2, 3) || prop == "C05"
 	c.Partial = c.Faults && c.Signal != "metrics" && c.Signal != "profiles" && tp.Chance(1, 2)
 	c.Wait = !c.Persistent && tp.Chance(1, 4)
+	if !c.Persistent && c.Batch != "queue" && prop != "C05" && tp.Chance(1, 6) {
+		// sending_queue disabled: the export (with its retries, or the legacy batcher) runs on the caller's goroutine
+		c.NoQueue = true
+		c.Wait = false
+	}
 	return c
 }
 
@@ -138,6 +150,7 @@ func (s *fullSim) build(inc *Incarnation) (simExporter, error) {
 	if cfg.Batch == "queue" {
 		qc.Batch = &exporterhelper.BatchConfig{FlushTimeout: time.Duration(cfg.FlushS) * time.Second, MinSize: cfg.Min, MaxSize: cfg.Max}
 	}
+	qc.Enabled = !cfg.NoQueue
 	if err := qc.Validate(); err != nil {
 		panic("harness: invalid queue config: " + err.Error())
 	}
@@ -212,7 +225,8 @@ func runFull(r *simkit.Run, prop string) {
 		s.observe("shutdown")
 	}
 	// quiet phase: the backend answers everything successfully; shutdown must return
-	for i := 0; i < 300 && !r.Failed() && !s.shut.Done(); i++ {
+	// (without a queue Shutdown does not wait for the callers' own export calls: let those finish too)
+	for i := 0; i < 300 && !r.Failed() && (!s.shut.Done() || (cfg.NoQueue && len(s.be.gate.Parked()) > 0)); i++ {
 		if ids := s.be.gate.Parked(); len(ids) > 0 {
 			id := ids[0]
 			r.Fire("quiet-ok:"+id, func() { s.be.answer(id, nil) })
@@ -339,7 +353,7 @@ func (s *fullSim) observe(ev string) {
 		}
 	}
 	calls := s.be.snapshot()
-	if s.prop == "C19" && s.shut == nil {
+	if s.prop == "C19" && s.shut == nil && !s.cfg.NoQueue {
 		// the gauges report the configured capacity and a size within [0, capacity]
 		capv, size := s.gaugeVal("otelcol_exporter_queue_capacity"), s.gaugeVal("otelcol_exporter_queue_size")
 		if capv != s.cfg.Cap {
@@ -353,7 +367,7 @@ func (s *fullSim) observe(ev string) {
 		s.shutReturnedAt = r.Events
 		s.callsAtReturn = len(calls)
 		r.Logf("  Shutdown returned %s; %d export calls so far", simkit.ShortErr(s.shut.Err), len(calls))
-		if n := len(s.be.gate.Parked()); n > 0 {
+		if n := len(s.be.gate.Parked()); n > 0 && !s.cfg.NoQueue {
 			r.Failf("shutdown", "returned-with-calls-in-flight", "Shutdown returned while %d export calls had not returned: %v", n, s.be.gate.Parked())
 		}
 	}
@@ -485,7 +499,7 @@ func (s *fullSim) finalChecks() {
 		}
 	}
 
-	if s.prop == "C03" {
+	if s.prop == "C03" || s.prop == "C05" {
 		for _, q := range s.reqs {
 			if !q.beforeShutdown {
 				continue
@@ -493,6 +507,10 @@ func (s *fullSim) finalChecks() {
 			for _, id := range sortedKeys(q.items) {
 				n := attempts[id]
 				switch {
+				case s.prop == "C05":
+					if !final[id] && !stored[id] {
+						r.Failf("shutdown", "request-not-kept/"+s.cfg.Batch, "item %s of request %d had no final outcome when shutdown interrupted its retries (attempts: %d), yet the persistent queue did not keep the request for the next start", id, q.n, n)
+					}
 				case s.cfg.Persistent:
 					if !final[id] && !stored[id] {
 						r.Failf("drain", "persistent-lost", "item %s of request %d (accepted before shutdown) has neither finished export with a final outcome (attempts: %d) nor is it still in storage", id, q.n, n)
@@ -514,10 +532,15 @@ func (s *fullSim) finalChecks() {
 		r.Logf("  counters: sent=%d send_failed=%d enqueue_failed=%d; given=%d still_stored=%d", sent, failed, enq, s.given, storedItems)
 		// with wait_for_result the producer also sees the outcome of the send: requests that were enqueued, sent and
 		// failed come back as errors from Consume
+		// the legacy batcher without a queue is a blocking queue with wait_for_result inside
+		wait := s.cfg.Wait || (s.cfg.NoQueue && s.cfg.Batch == "legacy")
 		var refusedItems, waitSendFailedItems int64
 		for _, q := range s.reqs {
+			if q.refused && s.cfg.NoQueue && s.cfg.Batch == "none" {
+				continue // without a queue every error a caller sees is a send failure, nothing is ever refused
+			}
 			if q.refused {
-				if s.cfg.Wait && (errors.Is(q.err, errTransient) || errors.Is(q.err, errPermanent) || errors.Is(q.err, context.DeadlineExceeded)) {
+				if wait && (errors.Is(q.err, errTransient) || errors.Is(q.err, errPermanent) || errors.Is(q.err, context.DeadlineExceeded)) {
 					waitSendFailedItems += int64(len(q.items))
 				} else {
 					refusedItems += int64(len(q.items))
@@ -529,12 +552,12 @@ func (s *fullSim) finalChecks() {
 			if storedItems > 0 {
 				locus = "exporter-balance/with-items-still-stored"
 			}
-			if s.cfg.Wait && waitSendFailedItems > 0 && sent+failed+enq == want+waitSendFailedItems {
+			if wait && waitSendFailedItems > 0 && sent+failed+enq == want+waitSendFailedItems {
 				locus = "exporter-balance/wait-for-result-send-failure-also-counted-as-enqueue-failed"
 			}
 			r.Failf("balance", locus, "sent(%d)+send_failed(%d)+enqueue_failed(%d)=%d but given(%d)-still_stored(%d)=%d [%s]", sent, failed, enq, sent+failed+enq, s.given, storedItems, want, s.cfg.Signal)
 		}
-		if enq != refusedItems && !(s.cfg.Wait && enq == refusedItems+waitSendFailedItems) {
+		if enq != refusedItems && !(wait && enq == refusedItems+waitSendFailedItems) {
 			r.Failf("balance", "enqueue-failed", "enqueue_failed counter %d, items of refused requests %d", enq, refusedItems)
 		}
 	}
